@@ -39,6 +39,8 @@ def cases(ctx):
                "hashseeds": [rng.randint(0, 2 ** 31) for _ in range(ctx.pick(4, 8))]}
     for i in range(ctx.per_shard(ctx.pick(4, 200))):
         yield {"kind": "cli", "seed": rng.getrandbits(32), "hashseeds": [rng.randint(0, 2 ** 31) for _ in range(ctx.pick(3, 6))]}
+    for i in range(ctx.per_shard(ctx.pick(2, 100))):
+        yield {"kind": "cli-nosalt", "seed": rng.getrandbits(32)}
     for i in range(ctx.per_shard(ctx.pick(60, 3000))):
         yield {"kind": "nosalt", "seed": rng.getrandbits(32), "feats": rng.choice(subs)}
 
@@ -148,6 +150,8 @@ def check_case(ctx, case):
             return _cli(ctx, case, nc)
         if k == "nosalt":
             return _nosalt(ctx, case, nc)
+        if k == "cli-nosalt":
+            return _cli_nosalt(ctx, case, nc)
         raise HarnessError("unknown kind")
     finally:
         cur = nc.rw.default_reserved_words
@@ -274,6 +278,38 @@ def _cli(ctx, case, nc):
                           % (outs[0][0], hs, first_diff(outs[0][1].decode("utf-8", "replace"), o.decode("utf-8", "replace"))))
             return
     ctx.distinct((case["seed"], "cli"))
+
+
+def _cli_nosalt(ctx, case, nc):
+    """No -s on the command line: the salt printed in the WARNING line must reproduce the output."""
+    rng, opts, text, src = make_target(case["seed"], ["pwd", "ip", "words", "asn"])
+    with tempfile.TemporaryDirectory(dir=os.path.join(load.VERIF, ".work")) as d:
+        with open(os.path.join(d, "in.cfg"), "w", encoding="utf-8", newline="") as f:
+            f.write(src)
+        base = ["-i", os.path.join(d, "in.cfg"), "-a", "-p", "-w", ",".join(opts["words"]), "-n", ",".join(opts["asns"])]
+        p1 = c02.run_cli(base + ["-o", os.path.join(d, "o1.cfg")], rng.randint(1, 9999))
+        ctx.count("child_processes")
+        m = re.search(r'WARNING[^\n]*salt[^\n]*"([^"\n]+)"', p1.stderr)
+        ctx.ev()
+        if p1.returncode != 0 or not m:
+            ctx.violation(case, "generated-salt-not-reported", "netconan without -s: rc=%s, no WARNING line with the salt in %r" % (p1.returncode, p1.stderr[-300:]))
+            return
+        p2 = c02.run_cli(base + ["-o", os.path.join(d, "o2.cfg"), "-s", m.group(1)], rng.randint(1, 9999))
+        ctx.count("child_processes")
+        try:
+            with open(os.path.join(d, "o1.cfg"), "rb") as f:
+                a = f.read()
+            with open(os.path.join(d, "o2.cfg"), "rb") as f:
+                b = f.read()
+        except OSError:
+            ctx.violation(case, "cli-failed", "rc=%s/%s %s" % (p1.returncode, p2.returncode, p2.stderr[-300:]))
+            return
+    ctx.count("output_comparisons")
+    if a != b:
+        ctx.violation(case, "reported-salt-does-not-reproduce:cli", "re-running netconan with the reported salt %r writes different bytes: %s"
+                      % (m.group(1), first_diff(a.decode("utf-8", "replace"), b.decode("utf-8", "replace"))))
+        return
+    ctx.distinct((case["seed"], "cli-nosalt"))
 
 
 class _Cap(logging.Handler):
